@@ -104,7 +104,13 @@ def perform(op):
                 # interpreter necessarily builds a new one
                 from harness.common import quiet
                 from torrentfile.recheck import Checker
-                key = (os.path.abspath(op["meta"]), os.path.abspath(op["content"]))
+                # ... for the same torrent: an object built from a metafile that has since been
+                # replaced by a different torrent is not "the same question asked again"
+                import hashlib
+                from harness import refspec
+                raw = open(op["meta"], "rb").read()
+                key = (os.path.abspath(op["meta"]), os.path.abspath(op["content"]),
+                       hashlib.sha1(refspec.info_span(raw) or raw).hexdigest())
                 with quiet():
                     if key not in CHECKERS:
                         CHECKERS[key] = Checker(op["meta"], op["content"])
